@@ -496,3 +496,111 @@ Example C02_tr_clear_nonvacuous :
 Proof. cbv zeta. set (B := length cglobals). vm_compute in B. subst B. vm_compute. repeat split. eexists. reflexivity. Qed.
 End C02_translated_clear.
 Print Assumptions C02_tr_lbuf_saved_clear.
+
+(* ------------------------------------------------------------------------------------------ *)
+(* ROUNDS g / h.
+   (h) THE BUFFER OF AN EDITOR STARTED WITHOUT A FILE NAME (DirtyDefs.ebuf_new = lbuf_make; lbuf_saved(lb, 0): ex_init -> ec_edit with
+   an empty path, nothing read).  Its history was never cleared by lbuf_saved(lb, 1): useq_last = 0, and lbuf_seq answers useq_last
+   -- 0 -- whenever the undo cursor is below the oldest log entry.  It gets its name from the first write with a path, whose tail
+   in ec_write is the own-path one (DSaveWhole / DSaveOwn).  Everything above holds from this start too; in particular the marker
+   lbuf_unsaved stores must differ from EVERY value lbuf_seq can take, 0 included. *)
+Theorem C02_noname_clean_sound : forall ops : list dop,
+  let e := run_dops ebuf_new ops in dirty_flag e = false -> ln (lb e) = disk e.
+Proof. exact noname_sound. Qed.
+Print Assumptions C02_noname_clean_sound.
+
+Theorem C02_noname_partial_write_dirty : forall (ops : list dop) (b en : nat) (walk : list dop),
+  let e := run_dops ebuf_new ops in
+  (Nat.eqb b 0 && Nat.eqb en (length (ln (lb e))) = false) -> forallb is_walk walk = true ->
+  dirty_flag (run_dops (run_dop e (DSaveOwn b en)) walk) = true.
+Proof. exact noname_partial_write_dirty. Qed.
+Print Assumptions C02_noname_partial_write_dirty.
+
+(* :q over a table whose buffers come from either start (read from a file, or the unnamed one), list and array form; the guard *)
+Theorem C02_quit_sound_any_start : forall bufs : list ebuf, Forall reachable0 bufs ->
+  snd (ec_quit false bufs) = true -> Forall (fun b => ln (lb b) = disk b) bufs.
+Proof. exact quit_sound_reachable0. Qed.
+Print Assumptions C02_quit_sound_any_start.
+
+Theorem C02_quit_table_sound_any_start : forall t : table, length t = NSLOTS -> Forall reachable0 (occupied t) ->
+  snd (ec_quit_tab false t) = true -> Forall (fun b => ln (lb b) = disk b) (occupied t).
+Proof. exact quit_tab_sound_reachable0. Qed.
+Print Assumptions C02_quit_table_sound_any_start.
+
+Theorem C02_guard_sound_any_start : forall (b : ebuf) (rest : list ebuf), reachable0 b ->
+  snd (guard_current false (b :: rest)) = false -> ln (lb b) = disk b.
+Proof. exact guard_sound_reachable0. Qed.
+Print Assumptions C02_guard_sound_any_start.
+
+(* not vacuous -- the history of seeded change C02h: no file name; a foo,bar; :w f (whole: clean); a baz; :1,2w (part of the buffer to
+   its own path); u; u.  The text is empty again, the file holds foo,bar, the undo cursor is below the oldest entry where lbuf_seq
+   answers useq_last = 0: the flag is on, :q is refused -- and a marker of 0 instead of -1 WOULD report clean there *)
+Example C02_noname_nonvacuous :
+  let foo := [102; 111; 111; 10]%N in let bar := [98; 97; 114; 10]%N in let baz := [98; 97; 122; 10]%N in
+  let h := [DEdit (Some (foo ++ bar)) 0 0; DBump; DSaveWhole; DBump; DEdit (Some baz) 2 2; DBump] in
+  let e1 := run_dops ebuf_new h in
+  let e2 := run_dops e1 [DSaveOwn 0 2; DBump; DUndo; DBump; DUndo; DBump] in
+  dirty_flag ebuf_new = false /\ useq_last (lb ebuf_new) = 0%Z /\
+  dirty_flag (run_dops ebuf_new [DEdit (Some (foo ++ bar)) 0 0; DBump; DSaveWhole; DBump]) = false /\
+  dirty_flag e1 = true /\ ln (lb e1) = [foo; bar; baz] /\
+  ln (lb e2) = [] /\ disk e2 = [foo; bar] /\ hist_u (lb e2) = 0%nat /\ lbuf_seq (lb e2) = 0%Z /\ useq_zero (lb e2) = (-1)%Z /\
+  dirty_flag e2 = true /\ snd (ec_quit false [e2]) = false /\ snd (guard_current false [e2]) = true /\
+  modified_flag (set_zero (lb e2) 0) = false.
+Proof. vm_compute. repeat split. Qed.
+
+(* (g) :e WITH AN EMPTY OR SELF-REFERRING ARGUMENT.  DirtyDefs.ec_edit_noarg = ec_edit with an empty path on a buffer that has one
+   (":e", ":e +cmd"; with force ":e!"): the guard comes first, before the argument is looked at; then nothing is opened or switched and
+   the function falls through to lbuf_rd over the whole buffer and lbuf_saved(xb, 0) (DReload of what the file holds).
+   Without `!` on a buffer reported modified: refused -- text, undo history, undo position, ghost disk and flag of every buffer kept *)
+Theorem C02_edit_noarg_refused : forall (b : ebuf) (rest : list ebuf) (file : list N), dirty_flag b = true ->
+  ec_edit_noarg false file (b :: rest) = (fst (bufs_modified b) :: rest, true) /\
+  map content (fst (ec_edit_noarg false file (b :: rest))) = map content (b :: rest) /\
+  map dirty_flag (fst (ec_edit_noarg false file (b :: rest))) = map dirty_flag (b :: rest).
+Proof. exact edit_noarg_refused. Qed.
+Print Assumptions C02_edit_noarg_refused.
+
+(* it goes through only when the text equals the ghost disk (what the re-read replaces is in the file); afterwards text = file,
+   ghost disk = text, flag off, and the buffer is again one the theorems above speak about *)
+Theorem C02_edit_noarg_sound : forall (b : ebuf) (rest : list ebuf) (file : list N), reachable0 b ->
+  snd (ec_edit_noarg false file (b :: rest)) = false ->
+  ln (lb b) = disk b /\
+  exists b', fst (ec_edit_noarg false file (b :: rest)) = b' :: rest /\
+             ln (lb b') = lines_of file /\ disk b' = lines_of file /\ dirty_flag b' = false /\ reachable0 b'.
+Proof. exact edit_noarg_sound. Qed.
+Print Assumptions C02_edit_noarg_sound.
+
+(* with `!`: the reload whatever the flag says: text = file, ghost disk = text, flag off *)
+Theorem C02_edit_noarg_force : forall (b : ebuf) (rest : list ebuf) (file : list N),
+  exists b', ec_edit_noarg true file (b :: rest) = (b' :: rest, false) /\
+             ln (lb b') = lines_of file /\ disk b' = lines_of file /\ dirty_flag b' = false /\ (reachable0 b -> reachable0 b').
+Proof. exact edit_noarg_force. Qed.
+Print Assumptions C02_edit_noarg_force.
+
+(* :e % / :e <own path> (bufs_find = 0, bufs_switch(0)): refused on a buffer reported modified; when it goes through nothing but the
+   command counter moves -- no read, the saved point stays -- and without `!` that happens only when text = ghost disk *)
+Theorem C02_edit_own : forall (force : bool) (b : ebuf) (rest : list ebuf),
+  (force = false -> dirty_flag b = true ->
+     ec_edit_own force (b :: rest) = (fst (bufs_modified b) :: rest, true)) /\
+  (snd (ec_edit_own force (b :: rest)) = false ->
+     map content (fst (ec_edit_own force (b :: rest))) = map content (b :: rest) /\
+     map dirty_flag (fst (ec_edit_own force (b :: rest))) = map dirty_flag (b :: rest) /\
+     (force = false -> reachable0 b -> ln (lb b) = disk b)).
+Proof. exact edit_own_spec. Qed.
+Print Assumptions C02_edit_own.
+
+(* not vacuous -- the history of seeded change C02g on the file one,two,three: 1s (line 1 replaced), :w, 2s (unsaved), then :e is
+   refused with the text kept, :e % too; :e! reloads; after u back to the written text :e goes through and re-reads *)
+Example C02_edit_noarg_nonvacuous :
+  let one := [111; 110; 101; 10]%N in let two := [116; 119; 111; 10]%N in let three := [116; 104; 114; 10]%N in
+  let ONE := [79; 78; 69; 10]%N in let TWO := [84; 87; 79; 10]%N in
+  let e := run_dops (ebuf_open (one ++ two ++ three))
+             [DEdit (Some ONE) 0 1; DBump; DSaveWhole; DBump; DEdit (Some TWO) 1 2; DBump] in
+  let file := ONE ++ two ++ three in
+  ln (lb e) = [ONE; TWO; three] /\ disk e = [ONE; two; three] /\
+  snd (ec_edit_noarg false file [e]) = true /\ map (fun b => ln (lb b)) (fst (ec_edit_noarg false file [e])) = [[ONE; TWO; three]] /\
+  snd (ec_edit_own false [e]) = true /\
+  map (fun b => (ln (lb b), dirty_flag b)) (fst (ec_edit_noarg true file [e])) = [([ONE; two; three], false)] /\
+  (let e' := run_dops e [DUndo; DBump] in
+   dirty_flag e' = false /\ snd (ec_edit_noarg false file [e']) = false /\
+   map (fun b => (ln (lb b), disk b, dirty_flag b)) (fst (ec_edit_noarg false file [e'])) = [([ONE; two; three], [ONE; two; three], false)]).
+Proof. vm_compute. repeat split. Qed.
